@@ -99,7 +99,8 @@ PGot ==          \* the armed q.get() delivers a new item before the timeout
 
 StartFunc ==     \* timeout or cancelled by wait(): _run_func(inputs)
     /\ ppc = "armed"
-    /\ \/ getting.st = "pending" /\ getting.deadline <= now /\ q = <<>>
+    \* (at an exact tie between the timer and an arrival either may win: the queue need not be empty)
+    /\ \/ getting.st = "pending" /\ getting.deadline <= now
        \/ getting.st = "cancelled"
     /\ getting' = [getting EXCEPT !.st = "none"]
     /\ IF inputs = {}
